@@ -182,6 +182,25 @@ Definition decode_chunk (d : dec) : chunk :=
   end.
 
 (* ---- StreamingInner::poll_frame --------------------------------------------------------- *)
+(* http::HeaderMap holds at most 24576 distinct names (raw capacity MAX_SIZE = 2^15, usable
+   capacity 3/4 of it).  HeaderMap::extend on a NON-EMPTY self panics exactly when the number
+   of distinct names reaches that bound before the last name of the argument is processed.
+   The model over-approximates: Panic whenever the two blocks together hold more than 24576
+   ENTRIES (entries >= distinct names, so every real panic is inside this class; a first
+   trailers block never panics here - it replaces None without any extend). *)
+Definition HM_MAX_NAMES : N := 24576.
+Definition extend_may_panic (old : option hm) (t : hm) : bool :=
+  match old with
+  | Some t0 => HM_MAX_NAMES <? nlen t0 + nlen t
+  | None => false
+  end.
+
+(* StreamingInner::is_incomplete: a message is incomplete if bytes are left over, or if its
+   header has been consumed and its payload is still outstanding *)
+Definition is_incomplete (d : dec) : bool :=
+  match d_buf d with [] => false | _ :: _ => true end ||
+  match d_state d with ReadBody _ _ => true | _ => false end.
+
 (* FSome = Ok(Some(())), FNone = Ok(None), FErr = Err(status) *)
 Inductive fres := FPending | FPanic | FSome (d : dec) | FNone (d : dec) | FErr (st : status) (d : dec).
 
@@ -191,13 +210,7 @@ Definition poll_frame (a : answer) (d : dec) : fres :=
   | AErr st =>
       if is_request (d_dir d) && (st_code st =? Code_Cancelled) then FNone d
       else FErr st (with_state d (Error (Some st)))
-  | AEnd =>
-      (* a message is incomplete if bytes are left over, or if its header has been consumed and
-         its payload is still outstanding *)
-      let incomplete :=
-        match d_buf d with [] => false | _ :: _ => true end ||
-        match d_state d with ReadBody _ _ => true | _ => false end in
-      if incomplete then FErr st_eof d else FNone d
+  | AEnd => if is_incomplete d then FErr st_eof d else FNone d
   | AFrame f =>
       if is_data f then
         match into_data f with
@@ -207,6 +220,10 @@ Definition poll_frame (a : answer) (d : dec) : fres :=
       else if is_trailers f then
         match into_trailers f with
         | Some t =>
+            (* trailers.extend(..) panics ("size overflows MAX_SIZE") when the map would need
+               more than 24576 distinct names; over-approximated by the entry counts *)
+            if extend_may_panic (d_trailers d) t then FPanic
+            else
             FNone (with_trailers d (Some (match d_trailers d with
                                           | Some t0 => hm_extend t0 t
                                           | None => t
@@ -231,11 +248,18 @@ Definition response (d : dec) : (unit + status) * dec :=
 Inductive item := IOk (m : msg) | IErr (st : status).
 Inductive pres := Pending | Item (i : item) | Done | Panic.
 
-(* Ok(None) from poll_frame: response(); Ok -> Ready(None); Err(err) -> state = Error(Some(err)),
-   and the next loop iteration takes it out again: Ready(Some(Err(err))), state = Error(None) *)
+(* Ok(None) from poll_frame: response();
+   Ok and trailers present and a message still incomplete -> state = Error(None),
+     Ready(Some(Err(INTERNAL "Unexpected EOF decoding stream.")))          (fix c94b9d29);
+   Ok otherwise -> Ready(None);
+   Err(err) -> state = Error(Some(err)), and the next loop iteration takes it out again:
+     Ready(Some(Err(err))), state = Error(None) *)
 Definition after_none (d : dec) : pres * dec :=
   match response d with
-  | (inl _, d') => (Done, d')
+  | (inl _, d') =>
+      if match d_trailers d' with Some _ => true | None => false end && is_incomplete d'
+      then (Item (IErr st_eof), with_state d' (Error None))
+      else (Done, d')
   | (inr e, d') => (Item (IErr e), with_state d' (Error None))
   end.
 
@@ -361,6 +385,27 @@ Definition ev_ok (e : bev) : Prop := match e with BData b => bytes_ok b = true |
 (* a script made of data chunks and Pending only *)
 Definition only_dp (evs : list bev) : Prop :=
   Forall (fun e => match e with BPending | BData _ => True | _ => False end) evs.
+(* a script of data chunks and Pending that then ends plainly or with one trailers frame *)
+Fixpoint data_then_end (evs : list bev) : Prop :=
+  match evs with
+  | [] => True
+  | e :: r =>
+      match e with
+      | BPending | BData _ => data_then_end r
+      | BTrailers _ => match r with [] => True | _ :: _ => False end
+      | BErr _ => False
+      end
+  end.
+(* header entries a decoder already holds as trailers plus those still to come in the script:
+   the bound under which no second trailers block can overflow http's HeaderMap *)
+Fixpoint trailers_in (evs : list bev) : N :=
+  match evs with
+  | [] => 0
+  | BTrailers t :: r => nlen t + trailers_in r
+  | _ :: r => trailers_in r
+  end.
+Definition trailer_load {enc} (d : dec enc) (evs : list bev) : N :=
+  match d_trailers d with Some t => nlen t | None => 0 end + trailers_in evs.
 (* the messages among a sequence of poll results *)
 Definition oks_of {msg} (t : list (pres msg)) : list msg :=
   flat_map (fun r => match r with Item (IOk m) => [m] | _ => [] end) t.
@@ -422,15 +467,74 @@ Definition pres_obs (r : pres (list N)) : tr :=
   | Panic => Nd [Nn 4]
   end.
 
+(* the prost decoder's verdict on the payloads of the case, passed in as a table by the harness
+   (Some canonical re-encoding of the decoded message | None = DecodeError); payloads that are
+   not in the table fail *)
+Fixpoint ptab_lookup (t : list (list N * option (list N))) (p : list N) : option (list N) :=
+  match t with
+  | [] => None
+  | (p', r) :: t' => if bytes_eqb p' p then r else ptab_lookup t' p
+  end.
+
+(* [n] distinct header names "x<tag>-<i>" with value "v": large trailers blocks *)
+Fixpoint dec_digits (fuel : nat) (n : N) (acc : list N) : list N :=
+  match fuel with
+  | O => acc
+  | S f => if n <? 10 then (48 + n) :: acc else dec_digits f (n / 10) ((48 + n mod 10) :: acc)
+  end.
+Fixpoint names_from (k : nat) (i tag : N) : hm :=
+  match k with
+  | O => []
+  | S k' => ([120; 48 + tag; 45] ++ dec_digits 20 i [], [118]) :: names_from k' (i + 1) tag
+  end.
+Definition names_hm (n tag : N) : hm := names_from (N.to_nat n) 0 tag.
+
+(* the ghost Reserve log against the allocation meter of the harness: [A] = largest single
+   allocation observed while polling, [R] = largest Reserve of the model's log.
+   (1) nothing is allocated without a Reserve (or received data / decompression estimate 2*len)
+       to justify it;  (2) a large Reserve is really allocated. *)
+Definition max_reserve (l : list ghost) : N :=
+  fold_left (fun a g => match g with Reserve n => N.max a n end) l 0.
+Definition reserve_tie (R A data bs : N) : tr :=
+  obool ((A <=? 2 * R + 4 * data + 2 * bs + 1048576) &&
+         ((R <? 65536 + data + 2 * bs) || (R <=? A))).
+
+Fixpoint until_panic {msg} (t : list (pres msg)) : list (pres msg) :=
+  match t with
+  | [] => []
+  | Panic :: _ => [Panic]
+  | r :: t' => r :: until_panic t'
+  end.
+
 (* drain with [fuel] polls, then [extra] more polls; both traces and the ScriptBody counter
-   after each phase; (Nd [Nn 5]) closes a drain that ran out of fuel *)
-Definition obs_decode (dir : direction) (encoding : option N) (max : option N)
-           (ztab : list (N * list N * option (list N))) (evs : list bev) (fuel extra : N) : tr :=
+   after each phase; (Nd [Nn 5]) closes a drain that ran out of fuel.  Second component: the
+   largest Reserve logged (None when the drain ran out of fuel). *)
+Definition obs_decode_gen (deser : list N -> option (list N)) (dir : direction) (encoding : option N)
+           (max : option N) (ztab : list (N * list N * option (list N))) (evs : list bev)
+           (fuel extra : N) : tr * option N :=
   let dz := ztab_lookup ztab in
   let d0 := dec_new dir encoding max in
-  match drain deser_raw dz (N.to_nat fuel) evs (mkB 0) d0 with
-  | (t1, None) => Nd [Nd (map pres_obs t1 ++ [Nd [Nn 5]])]
+  match drain deser dz (N.to_nat fuel) evs (mkB 0) d0 with
+  | (t1, None) => (Nd [Nd (map pres_obs t1 ++ [Nd [Nn 5]])], None)
   | (t1, Some (d1, evs1, g1)) =>
-      let '(t2, (_, _, g2)) := polls deser_raw dz (N.to_nat extra) evs1 g1 d1 in
-      Nd [Nd (map pres_obs t1); Nn (polls_after_end g1); Nd (map pres_obs t2); Nn (polls_after_end g2)]
+      let '(t2, (d2, _, g2)) := polls deser dz (N.to_nat extra) evs1 g1 d1 in
+      (* a caller stops at a panic: what follows it is not observable *)
+      if existsb (fun r => match r with Panic => true | _ => false end) t2 then
+        (Nd [Nd (map pres_obs t1); Nn (polls_after_end g1); Nd (map pres_obs (until_panic t2))], None)
+      else
+      (Nd [Nd (map pres_obs t1); Nn (polls_after_end g1); Nd (map pres_obs t2); Nn (polls_after_end g2)],
+       Some (max_reserve (d_log d2)))
   end.
+
+Definition obs_decode (dir : direction) (encoding : option N) (max : option N)
+           (ztab : list (N * list N * option (list N))) (evs : list bev) (fuel extra : N) : tr :=
+  fst (obs_decode_gen deser_raw dir encoding max ztab evs fuel extra).
+
+(* what h_decode compares: the poll results, and the Reserve log against the allocation meter.
+   [ptab] = None: the raw-bytes decoder; Some table: the real ProstCodec decoder's verdicts *)
+Definition obs_case (ptab : option (list (list N * option (list N)))) (dir : direction)
+           (encoding : option N) (max : option N) (ztab : list (N * list N * option (list N)))
+           (evs : list bev) (fuel extra A data bs : N) : tr :=
+  let deser := match ptab with Some t => ptab_lookup t | None => deser_raw end in
+  let '(o, r) := obs_decode_gen deser dir encoding max ztab evs fuel extra in
+  Nd [o; match r with Some R => reserve_tie R A data bs | None => obool true end].
